@@ -51,6 +51,16 @@ def main(tier, seed, replay=None):
                 k = rng.choice([P, P + 1, P + 3, "max"]) if mis in ("index", "mixed") and rng.random() < 0.6 else rng.randrange(P)
                 calls.append(("deriv", k))
         calls += [("params",), ("eval",)] + [("deriv", k) for k in range(P)]
+        if i % 8 == 5:
+            # a wrong-length initial guess supplied through the builder at every possible position (in particular directly after
+            # a function / partial_deriv call): the builder must reject it, so no mis-sized model can come into existence
+            bad = ("init", [rng.randint(11, 99) for _ in range(rng.choice([0, max(P - 1, 0), P + 1, P + 2]) if P != 0 else 1)])
+            if len(bad[1]) == P:
+                bad = ("init", bad[1] + [7])
+            ops = [o for o in ops if o[0] != "init"]
+            ops.insert(rng.randrange(len(ops) + 1), bad)
+            info = dict(info, expect_invalid=True)
+            kinds["init_len"] = kinds.get("init_len", 0) + 1
         progs.append((names, ops, info))
         calls_l.append(calls)
     cases = []
@@ -67,10 +77,14 @@ def main(tier, seed, replay=None):
             run.violation("builder-made model panicked / hung on misuse: %s" % r.get("panic"),
                           {"names": names, "ops": ops, "calls": calls, "result": r})
             continue
-        if not r["head"]["ok"]:
+        if not r["head"]["ok"] and not info.get("expect_invalid"):
             run.violation("a valid builder program was rejected", {"names": names, "ops": ops, "result": r})
             continue
-        for cr in r["head"]["calls"]:
+        if info.get("expect_invalid") and r["head"]["ok"]:
+            run.violation("a builder program with a wrong-length initial guess produced a model (which then carries a parameter vector of the wrong length)",
+                          {"names": names, "ops": ops, "calls": calls, "implementation": r["head"]})
+            continue
+        for cr in r["head"].get("calls", []):
             if not cr["ok"]:
                 k = cr["dbg"].split(" ")[0]
                 errs[k] = errs.get(k, 0) + 1
